@@ -155,3 +155,176 @@ Proof.
   - destruct H as [<-|[<-|[]]]; reflexivity.
   - destruct H as [<-|[<-|[]]]; reflexivity.
 Qed.
+
+(* ---------- repeated query keys, admissible parameter orders, oneof siblings (Proofs/RoundtripRepProofs.v) ---------- *)
+From Coq Require Import Permutation.
+From Larking Require Import Proofs.RoundtripRepProofs.
+
+(* Round trip with repeated keys.  The client splits a message into captures pls (as in
+   C03_roundtrip), query keys qls -- each key with the texts of its values in order of appearance,
+   one text for a singular leaf, one per item for a repeated scalar leaf -- and a body part.  If the
+   leaves are walkable field paths, pairwise non-touching and coherent (leaves_ok), the request is
+   served; the handler's message M' has at a singular leaf exactly the image of its value, at a
+   repeated leaf the items of the body part followed by the values of the key in order, every
+   parent present, nothing under the oneof siblings of a leaf or of a message on the way, and the
+   body part everywhere else; it is the message params.set builds from any admissible list of the
+   parameters, and the message of the request with its keys in any other order. *)
+Theorem C03_roundtrip_repeated :
+  forall (ofloat : bool -> bytes -> option N) (owkt : wkt -> bool -> bytes -> option subtree)
+         (marshal : nat -> nat -> subtree -> bytes) (unmarshal : nat -> nat -> bytes -> option subtree),
+  (forall c ty t, unmarshal c ty (marshal c ty t) = Some t) ->
+  forall (deflate : bytes -> bytes) (inflate : bytes -> option bytes),
+  (forall b, inflate (deflate b) = Some b) ->
+  forall sch r pls qls body codec gz M0,
+  r_vars r = map (fun l => fst (fst l)) pls ->
+  Forall (pleaf_ok ofloat owkt sch) pls ->
+  Forall (rqleaf_ok ofloat owkt sch (msg_fields sch (r_input r))) qls ->
+  (* leaves_ok (split_groups pls qls) *)
+  ((forall g, In g (split_groups pls qls) -> walkable (fst g) = true) /\
+   (forall i j gi gj, i <> j -> nth_error (split_groups pls qls) i = Some gi -> nth_error (split_groups pls qls) j = Some gj ->
+      untouched (fst gj) (steps_path (fst gi)) = true /\ coherent (fst gi) (fst gj))) ->
+  (r_body r = BNone -> body = None) ->
+  body_image r body = Ok M0 ->
+  exists M',
+    decode_request ofloat owkt unmarshal inflate sch r (split_request_rep marshal deflate sch r pls qls body codec gz) = Ok M' /\
+    (* rebuilt (split_groups pls qls) M0 M' *)
+    ((forall i fds vs d rel, nth_error (split_groups pls qls) i = Some (fds, vs) -> singular_last fds -> vs <> [] ->
+        lookup (steps_path fds ++ rel) M' = lookup rel (field_image (snd (last_step fds)) (last vs d))) /\
+     (forall i fds vs, nth_error (split_groups pls qls) i = Some (fds, vs) -> f_card (snd (last_step fds)) = Repeated ->
+        list_at (steps_path fds) M' = list_at (steps_path fds) M0 ++ map item_of vs /\
+        (vs <> [] -> lookup (steps_path fds) M' = Some (EList (list_at (steps_path fds) M0 ++ map item_of vs))) /\
+        (forall a r, lookup (steps_path fds ++ a :: r) M' = lookup (steps_path fds ++ a :: r) M0)) /\
+     (forall i fds vs p r, nth_error (split_groups pls qls) i = Some (fds, vs) -> vs <> [] ->
+        steps_path fds = p ++ r -> p <> [] -> r <> [] -> lookup p M' = Some EPresent) /\
+     (forall q, (forall g, In g (split_groups pls qls) -> untouched (fst g) q = true) -> lookup q M' = lookup q M0) /\
+     (forall i fds vs s rel, nth_error (split_groups pls qls) i = Some (fds, vs) -> singular_last fds -> vs <> [] ->
+        In s (sibs (fst (last_step fds)) (snd (last_step fds))) ->
+        lookup (removelast (steps_path fds) ++ s :: rel) M' = None) /\
+     (forall i A1 st A2 vs s rel, nth_error (split_groups pls qls) i = Some (A1 ++ st :: A2, vs) -> vs <> [] -> A2 <> [] ->
+        In s (sibs (fst st) (snd st)) ->
+        (lookup (steps_path A1 ++ [step_num st]) M0 = Some EPresent -> lookup (steps_path A1 ++ s :: rel) M0 = None) ->
+        lookup (steps_path A1 ++ s :: rel) M' = None)) /\
+    (forall l, admissible (split_groups pls qls) l -> exists M'', params_set l M0 = Ok M'' /\ meq M'' M') /\
+    (forall qls', Permutation qls qls' -> exists M'',
+       decode_request ofloat owkt unmarshal inflate sch r (split_request_rep marshal deflate sch r pls qls' body codec gz) = Ok M'' /\
+       meq M'' M').
+Proof. exact roundtrip_rep. Qed.
+Print Assumptions C03_roundtrip_repeated.
+
+(* params.set alone, from any starting message, for any admissible list of the parameters *)
+Theorem C03_params_rebuild_repeated : forall gs,
+  (forall g, In g gs -> walkable (fst g) = true) /\
+  (forall i j gi gj, i <> j -> nth_error gs i = Some gi -> nth_error gs j = Some gj ->
+     untouched (fst gj) (steps_path (fst gi)) = true /\ coherent (fst gi) (fst gj)) ->
+  forall l M0 M', admissible gs l -> params_set l M0 = Ok M' -> rebuilt gs M0 M'.
+Proof. exact params_rebuild_rep. Qed.
+Print Assumptions C03_params_rebuild_repeated.
+
+(* in particular: a repeated leaf the starting message has no entry for holds exactly the values
+   of its key, in order *)
+Theorem C03_repeated_leaf_exact : forall gs,
+  (forall g, In g gs -> walkable (fst g) = true) /\
+  (forall i j gi gj, i <> j -> nth_error gs i = Some gi -> nth_error gs j = Some gj ->
+     untouched (fst gj) (steps_path (fst gi)) = true /\ coherent (fst gi) (fst gj)) ->
+  forall l M0 M' i fds vs, admissible gs l -> params_set l M0 = Ok M' ->
+  nth_error gs i = Some (fds, vs) -> f_card (snd (last_step fds)) = Repeated -> vs <> [] ->
+  lookup (steps_path fds) M0 = None ->
+  lookup (steps_path fds) M' = Some (EList (map item_of vs)).
+Proof.
+  intros gs Hok l M0 M' i fds vs Ha H Hi C Hv L0.
+  destruct (params_rebuild_rep gs Hok l M0 M' Ha H) as [_ [C2 _]].
+  destruct (C2 i fds vs Hi C) as [_ [E _]]. rewrite (E Hv). unfold list_at. rewrite L0. reflexivity.
+Qed.
+Print Assumptions C03_repeated_leaf_exact.
+
+(* Admissible orders.  l is admissible for the leaves gs when its elements can be labelled with
+   leaf numbers such that, for every k, the elements labelled k are, in order, the values of leaf
+   k at the field path of leaf k: any interleaving of the keys that keeps the occurrences of each
+   key in order.  All admissible lists are accepted and build the same message (the same entry at
+   every path). *)
+Theorem C03_repeated_order_free : forall gs,
+  (forall g, In g gs -> walkable (fst g) = true) /\
+  (forall i j gi gj, i <> j -> nth_error gs i = Some gi -> nth_error gs j = Some gj ->
+     untouched (fst gj) (steps_path (fst gi)) = true /\ coherent (fst gi) (fst gj)) ->
+  forall l1 l2 M0,
+  (exists tl : list (nat * param), map snd tl = l1 /\
+     forall k, filter (fun x => Nat.eqb (fst x) k) tl =
+               map (pair k) (match nth_error gs k with Some g => map (fun v => (fst g, v)) (snd g) | None => [] end)) ->
+  (exists tl : list (nat * param), map snd tl = l2 /\
+     forall k, filter (fun x => Nat.eqb (fst x) k) tl =
+               map (pair k) (match nth_error gs k with Some g => map (fun v => (fst g, v)) (snd g) | None => [] end)) ->
+  exists M1 M2, params_set l1 M0 = Ok M1 /\ params_set l2 M0 = Ok M2 /\ forall q, lookup q M1 = lookup q M2.
+Proof. exact repeated_order_free. Qed.
+Print Assumptions C03_repeated_order_free.
+
+(* leaf after leaf with the leaves in any order (what parseQueryParams produces for some iteration
+   order of url.Values) is admissible; so is every re-ordering of a labelled admissible list that
+   keeps, for every label, the elements with that label in order *)
+Theorem C03_admissible_orders : forall gs,
+  (forall gs', Permutation gs gs' -> admissible gs (concat (map expand gs'))) /\
+  (forall tl tl' : list (nat * param),
+     (forall k, occ k tl = map (pair k) (leaf_at gs k)) ->
+     (forall k, filter (fun x => Nat.eqb (fst x) k) tl = filter (fun x => Nat.eqb (fst x) k) tl') ->
+     admissible gs (map snd tl')).
+Proof.
+  intros gs. split; [intros gs'; apply admissible_perm|].
+  intros tl tl' H S. exists tl'. split; [reflexivity|].
+  intros k. rewrite <- H. symmetry. exact (S k).
+Qed.
+Print Assumptions C03_admissible_orders.
+
+(* Oneof siblings after the round trip: whatever the body part carried under another member of the
+   oneof of a singular leaf, nothing is left there; the same for the oneof of a message on the way
+   to a leaf (when the body part is a well-formed message: it does not have the member set and
+   entries under another member as well). *)
+Theorem C03_oneof_sibling_cleared :
+  forall (ofloat : bool -> bytes -> option N) (owkt : wkt -> bool -> bytes -> option subtree)
+         (marshal : nat -> nat -> subtree -> bytes) (unmarshal : nat -> nat -> bytes -> option subtree),
+  (forall c ty t, unmarshal c ty (marshal c ty t) = Some t) ->
+  forall (deflate : bytes -> bytes) (inflate : bytes -> option bytes),
+  (forall b, inflate (deflate b) = Some b) ->
+  forall sch r pls qls body codec gz M0,
+  r_vars r = map (fun l => fst (fst l)) pls ->
+  Forall (pleaf_ok ofloat owkt sch) pls ->
+  Forall (rqleaf_ok ofloat owkt sch (msg_fields sch (r_input r))) qls ->
+  leaves_ok (split_groups pls qls) ->
+  (r_body r = BNone -> body = None) ->
+  body_image r body = Ok M0 ->
+  exists M',
+    decode_request ofloat owkt unmarshal inflate sch r (split_request_rep marshal deflate sch r pls qls body codec gz) = Ok M' /\
+    (forall i fds vs s rel, nth_error (split_groups pls qls) i = Some (fds, vs) -> singular_last fds -> vs <> [] ->
+       In s (sibs (fst (last_step fds)) (snd (last_step fds))) ->
+       lookup (removelast (steps_path fds) ++ s :: rel) M' = None) /\
+    (forall i A1 st A2 vs s rel, nth_error (split_groups pls qls) i = Some (A1 ++ st :: A2, vs) -> vs <> [] -> A2 <> [] ->
+       In s (sibs (fst st) (snd st)) ->
+       (lookup (steps_path A1 ++ [step_num st]) M0 = Some EPresent -> lookup (steps_path A1 ++ s :: rel) M0 = None) ->
+       lookup (steps_path A1 ++ s :: rel) M' = None).
+Proof.
+  intros ofloat owkt marshal unmarshal Hc deflate inflate Hg sch r pls qls body codec gz M0 Hv Hp Hq Hok Hn Hb.
+  destruct (roundtrip_rep ofloat owkt marshal unmarshal Hc deflate inflate Hg sch r pls qls body codec gz M0 Hv Hp Hq Hok Hn Hb)
+    as [M' [D [[_ [_ [_ [_ [C5 C6]]]]] _]]].
+  exists M'. split; [exact D|]. split; [exact C5|exact C6].
+Qed.
+Print Assumptions C03_oneof_sibling_cleared.
+
+(* What the hypothesis "non-touching" excludes: two leaves that set, or walk through, two members of
+   one oneof (the result depends on the order of the keys: ex_oneof_race), and two leaves with the
+   same path -- two spellings of one field, singular or repeated. *)
+Theorem C03_oneof_two_members_excluded : forall A1 stA A2 B1 stB B2,
+  steps_path A1 = steps_path B1 ->
+  In (step_num stB) (sibs (fst stA) (snd stA)) ->
+  untouched (A1 ++ stA :: A2) (steps_path (B1 ++ stB :: B2)) = false.
+Proof. exact oneof_members_touch. Qed.
+Print Assumptions C03_oneof_two_members_excluded.
+
+Theorem C03_two_spellings_excluded : forall A B, A <> [] -> steps_path A = steps_path B -> untouched A (steps_path B) = false.
+Proof. exact same_path_touch. Qed.
+Print Assumptions C03_two_spellings_excluded.
+
+(* coherence is no restriction for keys resolved by fieldPath in a schema with unique field numbers *)
+Theorem C03_field_path_coherent : forall sch,
+  (forall m, NoDup (map f_num (msg_fields sch m))) ->
+  forall na root nb A B, NoDup (map f_num root) ->
+  field_path sch root na = Some A -> field_path sch root nb = Some B -> coherent A B.
+Proof. exact field_path_coherent. Qed.
+Print Assumptions C03_field_path_coherent.
